@@ -670,6 +670,16 @@ func getSpec(prop, tier string) *Spec {
 		os.Exit(2)
 	}
 	s := mk(tier)
+	if len(s.ProbeOps) == 0 && s.Depth > 1 {
+		// the states of the last level are not expanded; every reading command of the alphabet is
+		// still applied to them, so that a sequence "mutate ... mutate, read" of depth+1 commands is
+		// judged too (a read served from state that an earlier read left behind, say)
+		for _, op := range s.Alphabet {
+			if len(op.A) > 0 && readOnlyCmd[strings.ToLower(string(op.A[0]))] {
+				s.ProbeOps = append(s.ProbeOps, op)
+			}
+		}
+	}
 	specCache[k] = s
 	return s
 }
@@ -1211,3 +1221,8 @@ func opKey(o Op) string {
 	fmt.Fprintf(&b, "adv%d", o.AdvMs)
 	return b.String()
 }
+
+var readOnlyCmd = map[string]bool{"get": true, "strlen": true, "getrange": true, "mget": true, "exists": true, "type": true, "ttl": true, "keys": true,
+	"llen": true, "lindex": true, "lrange": true, "lpos": true, "hget": true, "hlen": true, "hgetall": true, "hexists": true, "hkeys": true, "hvals": true,
+	"hstrlen": true, "hmget": true, "hrandfield": true, "scard": true, "sismember": true, "smembers": true, "srandmember": true, "sunion": true, "sinter": true,
+	"sdiff": true, "zrank": true, "zrange": true, "xrange": true}
